@@ -154,7 +154,7 @@ impl Prop for C15 {
     }
     fn strategy(tier: Tier) -> BoxedStrategy<Case> {
         let big = tier.pick(600u32, 70_000);
-        let name = prop_oneof![3 => "[a-zA-Z0-9_./]{1,14}", 3 => sjis_string(8), 1 => Just(String::new())];
+        let name = prop_oneof![60 => "[a-zA-Z0-9_./]{1,14}", 60 => sjis_string(8), 20 => Just(String::new()), 1 => crate::gen::strings::long_sjis_string()];
         let content = prop_oneof![
             4 => proptest::sample::select(vec![0u32, 1, 31, 32, 33, 63, 64, 65]).prop_flat_map(|n| any::<u64>().prop_map(move |s| Content::Seeded(n, s))),
             3 => (0u32..=600, any::<u64>()).prop_map(|(n, s)| Content::Seeded(n, s)),
